@@ -59,7 +59,7 @@ def run_engine(harnesses, tags, tier, conf, extra=()):
     cmd = [GOSYM, "run", "-tier", tier, "-repo", REPO, "-harness-dir", HARNESS_DIR, "-tags", tags,
            "-harness", ",".join(harnesses), "-j", str(jobs), "-out", out.name,
            "-timeout-ms", str(conf.get("timeout_ms", 30000 if tier == "quick" else 300000)),
-           "-max-wall", str(conf.get("max_wall", "600s" if tier == "quick" else "5h")),
+           "-max-wall", str(conf.get("max_wall", "600s" if tier == "quick" else "45m")),
            "-max-paths", str(conf.get("max_paths", 400000)),
            "-max-enum", str(conf.get("max_enum", 300)),
            "-unwind", str(conf.get("unwind", 600))] + list(extra)
